@@ -104,10 +104,20 @@ func HarnessC06Acc(n, nclass int) {
 
 // HarnessC07Pool: sequences on two PIDs merged in every order-preserving way, with an inserted null / TEI /
 // adaptation-only packet: the groups flushed for each PID are those of the PID alone
-func HarnessC07Pool(na, nb, nclass int) {
+// pat == 1: the first PID is the PAT PID and each of its packets carries a complete (empty) section, so every packet is
+// flushed on arrival and the accumulator is empty when the next one - possibly with the same counter - arrives
+func HarnessC07Pool(na, nb, nclass, pat int) {
 	var a, b []*Packet
+	pidA := uint16(0x100)
+	if pat == 1 {
+		pidA = PIDPAT
+	}
 	for i := 0; i < na; i++ {
-		a = append(a, vHeaderPacket(0x100, byte(i), nclass))
+		p := vHeaderPacket(pidA, byte(i), nclass)
+		if pat == 1 && p.Header.HasPayload {
+			p.Payload = []byte{0x00, 0xff, byte(i)}
+		}
+		a = append(a, p)
 	}
 	for i := 0; i < nb; i++ {
 		b = append(b, vHeaderPacket(0x101, byte(0x10+i), nclass))
@@ -139,7 +149,7 @@ func HarnessC07Pool(na, nb, nclass int) {
 	alone := runPool(a)
 	aloneB := runPool(b)
 	all := runPool(merged)
-	vassert("C07.pool.a", sameGroups(alone.forPID(0x100), all.forPID(0x100)))
+	vassert("C07.pool.a", sameGroups(alone.forPID(pidA), all.forPID(pidA)))
 	_ = PIDNull
 	vassert("C07.pool.b", sameGroups(aloneB.forPID(0x101), all.forPID(0x101)))
 	vreach("C07.pool.end")
